@@ -159,8 +159,9 @@ def balSpans (w : List Ev) : Option (List SSpan) :=
   | some (r, []) => some r
   | _ => none
 
-/-- No label is opened for addition and for deletion on the same line (the corner where the
-implementation raises `TypeError`, finding 13). -/
+/-- No label is opened for addition and for deletion on the same line. On such a tie the
+implementation closes the addition first whatever the order of the two openings on the line
+(`max(champions, key=line)`), which is the LIFO reading only for `-L... L...`. -/
 def noTie (w : List Ev) : Bool :=
   w.all fun e => match e with
     | .opn false i => !w.contains (.opn true i)
@@ -209,21 +210,6 @@ def unbalancedB (L : Str) (toks : List (Nat × Str)) : Bool :=
 def malformedB (toks : List (Nat × Str)) : Bool :=
   toks.any (fun p => rejected p.2) || (labelsIn toks).any fun L => unbalancedB L toks
 
-/-- No label is opened both for addition and for deletion on one line (finding 13's corner). -/
-def TieFree (toks : List (Nat × Str)) : Prop :=
-  ∀ p ∈ toks, ∀ q ∈ toks, ∀ kp kq, classify p.2 = some kp → classify q.2 = some kq →
-    p.1 = q.1 → kp.label = kq.label → kp.after = true → kq.after = true →
-    kp.before ≠ .dots → kq.before ≠ .dots → (kp.before = .minus ↔ kq.before = .minus)
-
-/-- Executable form of `TieFree`. -/
-def tieFreeB (toks : List (Nat × Str)) : Bool :=
-  toks.all fun p => toks.all fun q =>
-    match classify p.2, classify q.2 with
-    | some kp, some kq =>
-      !(p.1 == q.1 && kp.label == kq.label && kp.after && kq.after && kp.before != .dots && kq.before != .dots) ||
-        ((kp.before == .minus) == (kq.before == .minus))
-    | _, _ => true
-
 /-- The numbered hint tokens of a text. -/
 def hintToks (c : Str) : List (Nat × Str) := numberedTokens 1 (splitNL c)
 
@@ -263,6 +249,79 @@ def hygienic (d : Decorated) : Bool :=
     match codeLines d with
     | [] => false
     | c :: cs => firstOk c && lastOk ((c :: cs).getLast (by simp))
+
+/-! ### Tolerated spellings of the marker, blank lines at both ends of the text -/
+
+/-- How a hint comment spells its marker (manual, "Formatting details": `# paroxython:` is neither
+space- nor case-sensitive): `#`, `sp1` spaces, `paroxython` with the letters `k` such that
+`caps k` in upper case, `sp2` spaces, `:`, then `after` spaces. The normalised spelling is the
+default. -/
+structure MarkerStyle where
+  sp1 : Nat := 1
+  caps : Nat → Bool := fun _ => false
+  sp2 : Nat := 0
+  after : Nat := 1
+
+def spellAt (caps : Nat → Bool) (k : Nat) : Char :=
+  match pletters[k]? with
+  | some p => if caps k then p.toUpper else p
+  | none => ' '
+
+def renderMarker (ms : MarkerStyle) : Str :=
+  '#' :: (List.replicate ms.sp1 ' ' ++ ((List.range 10).map (spellAt ms.caps) ++
+    (List.replicate ms.sp2 ' ' ++ [':'])))
+
+/-- A line of a decorated program with its marker spelled as `ms` says (`ms.after` spaces, possibly
+none, then the first token). -/
+def renderLineS : Line × MarkerStyle → Str
+  | (.code c, ms) =>
+    if c.hints = [] then c.code
+    else c.code ++ (List.replicate (c.pad + 1) ' ' ++ (renderMarker ms ++
+      (List.replicate ms.after ' ' ++ (renderHints c.hints).drop 1)))
+  | (.isolated indent L, ms) =>
+    List.replicate indent ' ' ++ (renderMarker ms ++ (List.replicate ms.after ' ' ++ L))
+
+/-- The text of a decorated program whose markers are spelled freely. -/
+def decorateS (d : List (Line × MarkerStyle)) : Str := joinNL (d.map renderLineS)
+
+/-- The same line once its marker is normalised: the white space that followed the colon is gone. -/
+def gap0 : Line → Line
+  | .code c =>
+    .code { c with hints := match c.hints with
+      | [] => []
+      | h :: hs => { h with style := { h.style with gap := 0 } } :: hs }
+  | .isolated indent L => .isolated indent L
+
+def isBlankLine : Line → Bool
+  | .code c => c.code.isEmpty && c.hints.isEmpty
+  | .isolated _ _ => false
+
+/-- The decorated program without the blank lines that begin and end its text. -/
+def core (d : Decorated) : Decorated :=
+  ((d.dropWhile isBlankLine).reverse.dropWhile isBlankLine).reverse
+
+/-- What `get_program` numbers the hints on, for a decorated program with free marker spellings. -/
+def normalised (d : List (Line × MarkerStyle)) : Decorated := core (d.map fun p => gap0 p.1)
+
+/-- No tolerated spelling of the marker (`(?i)#\s*paroxython\s*:`) occurs in the text. -/
+def scanAccepts : NState → Str → Bool
+  | _, [] => false
+  | st, c :: t =>
+    match nstep st c with
+    | .cont s => scanAccepts s t
+    | .reset => scanAccepts .idle t
+    | .hash => scanAccepts .hash t
+    | .accept => true
+    | .drop => scanAccepts .tail t
+
+def noLoose (l : Str) : Bool := !scanAccepts .idle l
+def noHash (l : Str) : Bool := !l.contains '#'
+
+/-- Hygiene of the code lines and labels when the marker may be spelled freely: no look-alike of
+the marker in the code, no `#` in a label. -/
+def looseOk (d : Decorated) : Bool :=
+  (codeLines d).all (fun c => noLoose c.code && c.hints.all fun h => noHash h.label) &&
+    (wholeLabels d).all noHash
 
 /-! ### The decorated program after centrifugation (isolated hints moved to both ends) -/
 
